@@ -52,6 +52,7 @@ func genLifecycle(rc *core.RunCtx, env *Env, p lcParams) *lcScenario {
 		if p.mw {
 			sp.NMiddleware = g.Range(1, 3)
 			sp.MWSplit = g.Range(0, sp.NMiddleware-1)
+			sp.MWPanicStopped = g.Bool(0.12)
 		} else if g.Bool(0.2) {
 			sp.NMiddleware = g.Range(1, 2)
 		}
